@@ -12,6 +12,7 @@ mod runner;
 
 mod c06_layout;
 mod c15_console;
+mod c19_events;
 
 use proto::RunResult;
 use runner::{Ctx, Tier};
@@ -85,6 +86,7 @@ fn main() {
             let (cases, rule, exhaustive, extra) = match prop.as_str() {
                 "C06" => c06_layout::run(&ctx),
                 "C15" => c15_console::run(&ctx),
+                "C19" => c19_events::run(&ctx),
                 _ => {
                     eprintln!("unknown property {}", prop);
                     std::process::exit(2)
